@@ -62,6 +62,8 @@ def run_case(rng, idx, tier, lane, ctx):
         cls.append("target_param")
     if c.weight_arg is not None:
         cls.append("weights")
+        if "mask" in getattr(c, "weight_form", ""):
+            cls.append("weights-zero-mask")
     if getattr(c, "spread_form", None) == "matrix":
         cls.append("spread-matrix")
     sample = LC.describe(c)
